@@ -9,13 +9,20 @@ package main
 //	                  goes into the correspondence bit.
 //	{"kind":"run",…}  one concurrent run: this binary (built with -race by
 //	                  check.py) re-executes itself as a child in worker mode
-//	                  (argv[1] = "C16worker", spec on stdin, result as JSON on
+//	                  (argv[1] = "C16worker", input on stdin, result as JSON on
 //	                  stdout, race reports on stderr).  In the child every
 //	                  goroutine owns its tables and wrappers: it builds them
 //	                  from its own specs and renders them in every format and
 //	                  every registered decoration, while reader goroutines list
-//	                  and look up decorations.  Before the goroutines start the
-//	                  same programmes run alone, twice, in the same process.
+//	                  and look up decorations.
+//
+// "What the same table produces alone" is computed in one of two ways: the same
+// programmes run alone in the same process (before the goroutines, or - cold
+// cases - after them, the process not having touched the library before), or
+// (pristine_reference, few goroutines) each programme runs in a fresh child
+// process of its own (mode "solo"), whose outputs are handed to the concurrent
+// child as the reference.  The second way is what exposes shared state that
+// also corrupts sequential use within one process.
 //
 // The property oracle (ok) is: no race report, no crash, every registry read
 // returned what it returns sequentially, and every goroutine's outputs are
@@ -27,14 +34,17 @@ import (
 	"bytes"
 	"context"
 	"encoding/json"
+	"errors"
 	"fmt"
 	"hash/fnv"
 	htmltemplate "html/template"
 	"io"
+	"math"
 	"os"
 	"os/exec"
 	"runtime"
 	"runtime/debug"
+	"sort"
 	"strings"
 	"sync"
 	"sync/atomic"
@@ -63,8 +73,28 @@ type C16Spec struct {
 	Formats  []string `json:"formats,omitempty"` // classes: csv html json markdown texttable auto; empty = all
 	Full     bool     `json:"full,omitempty"`    // every table in every format; otherwise the six core renders plus a rotating share of decorations and auto styles
 	Repeat   int      `json:"repeat,omitempty"`  // run the child up to this many times until a failure shows (shrinking)
-	// ColdFirst: the concurrent phase runs before anything has been rendered in the process
+	// ColdFirst: the concurrent phase runs before anything has been rendered in the
+	// process AND before the process has touched the decoration registry at all
+	// (the built-in names are taken as constants), so that the goroutines' first
+	// actions - the same few lookups, at once - are the first ever in the process
 	ColdFirst bool `json:"cold_first,omitempty"`
+	// Pristine: "what the same table produces alone" is computed by running each
+	// goroutine's programme in a fresh child process of its own (one per
+	// goroutine) instead of in the process that also runs the goroutines
+	Pristine bool `json:"pristine_reference,omitempty"`
+}
+
+// what the worker process reads on stdin
+type c16WorkerIn struct {
+	Spec C16Spec    `json:"spec"`
+	Mode string     `json:"mode"`          // run | solo
+	Solo int        `json:"solo"`          // solo: which goroutine's programme
+	Ref  [][]string `json:"ref,omitempty"` // run: per goroutine, the outputs of its programme in a process of its own
+}
+
+type c16SoloOut struct {
+	Outs   []string `json:"outs"`
+	Labels []string `json:"labels"`
 }
 
 type c16Row struct {
@@ -85,6 +115,9 @@ type C16Result struct {
 	FormatsUsed int            `json:"formats_rendered"`
 	Outcomes    map[string]int `json:"outcomes"` // ok / err / panic over the solo renders
 	Procs       int            `json:"gomaxprocs"`
+	Reference   string         `json:"reference"` // same-process | own-process-per-goroutine
+	ErrTables   int            `json:"tables_recording_errors"`
+	Notes       []string       `json:"notes,omitempty"`
 }
 
 // ---------------------------------------------------------------- generator of table specs
@@ -92,8 +125,24 @@ type C16Result struct {
 var c16Atoms = []string{"", "a", "é", "x|y", "<b>&amp;</b>", "line1\nline2", `"q",`, "日本語", "tab\there", " ", "0",
 	"a rather longer cell text that widens its column", "*md* _x_ `c`", "\\", "<script>alert(1)</script>", "é", "multi\nline\ncell"}
 
+// short texts that many goroutines' tables have in common, as plain strings
+// and as single-line items that declare a display width of their own
+var c16Shared = []string{"yes", "no", "-", "0", "n/a", "ok", "total", "12.5"}
+
 func c16Item(r *RNG) ItemSpec {
-	switch r.Intn(12) {
+	switch r.Intn(16) {
+	case 12, 13:
+		return Str(pick(r, c16Shared))
+	case 14:
+		// String() + TerminalCellWidth(): declares more cells than the text measures
+		t := pick(r, c16Shared)
+		return ItemSpec{K: "obj", Mask: 17, S: []byte(t), W: len(t) + 1 + r.Intn(3)}
+	case 15:
+		if r.Pct(40) {
+			// encoding/json refuses it part-way down the table; the text form is stable
+			return ItemSpec{K: "float", F: math.Inf(1 - 2*r.Intn(2))}
+		}
+		return Str(pick(r, c16Shared))
 	case 0:
 		return ItemSpec{K: "int", I: int64(r.Intn(100000)) - 500}
 	case 1:
@@ -151,13 +200,134 @@ func c16Table(r *RNG, maxRows, maxCells int) TableSpec {
 	return ts
 }
 
-func c16Programme(spec C16Spec, g int) []TableSpec {
+// c16Tab: a table spec plus the things that make a table record errors or
+// meet failing destinations while it is rendered.
+type c16Tab struct {
+	TableSpec
+	Tag    string // unique per (seed, goroutine, table): marks this table's own errors
+	SepAdd bool   // a cell is added to a separator row (misuse: an error is recorded)
+	FailCB bool   // a render-time callback that fails the first three times it runs
+	FailW  int    // > 0: between renders, RenderTo into a writer that fails after (FailW-1)*17 bytes
+}
+
+func c16Programme(spec C16Spec, g int) []c16Tab {
 	r := NewRNG(spec.Seed*1000003 + uint64(g)*7919 + 17)
-	out := make([]TableSpec, spec.Tables)
+	out := make([]c16Tab, spec.Tables)
 	for k := range out {
-		out[k] = c16Table(r, spec.MaxRows, spec.MaxCells)
+		ct := c16Tab{TableSpec: c16Table(r, spec.MaxRows, spec.MaxCells), Tag: fmt.Sprintf("s%d-g%d-t%d", spec.Seed, g, k)}
+		ct.SepAdd = r.Pct(25)
+		ct.FailCB = r.Pct(25)
+		if r.Pct(30) {
+			ct.FailW = 1 + r.Intn(4)
+		}
+		out[k] = ct
 	}
 	return out
+}
+
+type c16FailCB struct {
+	tag string
+	n   int
+}
+
+func (cb *c16FailCB) UpdateProperties(tabular.PropertyOwner) error {
+	if cb.n >= 3 {
+		return nil
+	}
+	cb.n++
+	return fmt.Errorf("c16:%s:callback#%d", cb.tag, cb.n)
+}
+
+type c16FailWriter struct{ left int }
+
+func (w *c16FailWriter) Write(p []byte) (int, error) {
+	if len(p) <= w.left {
+		w.left -= len(p)
+		return len(p), nil
+	}
+	n := w.left
+	w.left = 0
+	return n, errors.New("c16: destination full")
+}
+
+// c16Errors: how many errors the table (and its rows) hold and which: errors
+// made by this harness carry their table's tag, the library's own are only
+// counted as such (their wording is not compared).
+func c16Errors(t tabular.Table) string {
+	name := func(e error) string {
+		if e == nil {
+			return "<nil>"
+		}
+		m := e.Error()
+		if i := strings.Index(m, "c16:"); i >= 0 {
+			return m[i:]
+		}
+		return "library"
+	}
+	var sb strings.Builder
+	es := t.Errors()
+	fmt.Fprintf(&sb, "errors\x00table=%d", len(es))
+	for _, e := range es {
+		sb.WriteString(" " + name(e))
+	}
+	for i, r := range t.AllRows() {
+		if re := r.Errors(); len(re) > 0 {
+			fmt.Fprintf(&sb, " row%d=%d", i, len(re))
+			for _, e := range re {
+				sb.WriteString(" " + name(e))
+			}
+		}
+	}
+	return sb.String()
+}
+
+// c16FailRender: RenderTo of t into a destination that fails; only whether it
+// failed is kept.
+func c16FailRender(t tabular.Table, which, budget int) string {
+	o := capture(func() (string, error) {
+		w := &c16FailWriter{left: budget}
+		switch which % 5 {
+		case 0:
+			return "", tjson.Wrap(t).RenderTo(w)
+		case 1:
+			return "", csv.Wrap(t).RenderTo(w)
+		case 2:
+			return "", markdown.Wrap(t).RenderTo(w)
+		case 3:
+			return "", html.Wrap(t).RenderTo(w)
+		default:
+			return "", texttable.RenderTo(t, w)
+		}
+	})
+	return "failing-writer\x00" + o.Kind
+}
+
+// the documented built-in decoration names (texttable/decoration: D_* constants)
+var c16Builtin = []string{decoration.D_ASCII_SIMPLE, decoration.D_NONE, decoration.D_UTF8_DOUBLE, decoration.D_UTF8_HEAVY, decoration.D_UTF8_LIGHT, decoration.D_UTF8_LIGHT_CURVED}
+
+func c16BuiltinStyles() []string {
+	l := append([]string{"csv", "html", "json", "markdown"}, c16Builtin...)
+	sort.Strings(l)
+	return l
+}
+
+// c16Prologue: the first things every goroutine does after the start barrier -
+// the same lookups, in the same order, at the same time - and then renders of
+// one tiny table in each of those decorations.
+func c16Prologue(names []string) (out, labels []string) {
+	for _, nm := range names {
+		d := decoration.Named(nm)
+		out = append(out, fmt.Sprintf("named\x00unknown=%v", d == decoration.EmptyDecoration))
+		labels = append(labels, "prologue Named("+nm+")")
+	}
+	t := tabular.New()
+	t.AddHeaders("h")
+	t.AddRowItems("v")
+	for _, nm := range names {
+		out = append(out, c16Render(t, "auto:"+nm))
+		labels = append(labels, "prologue format auto:"+nm)
+	}
+	return out, labels
 }
 
 // ---------------------------------------------------------------- rendering
@@ -291,14 +461,47 @@ func c16Render(t tabular.Table, f string) string {
 	return o.Kind + "\x00" + string(o.Out)
 }
 
-func c16RunProgramme(spec C16Spec, g int, prog []TableSpec, formats []string) (out, labels []string) {
-	for k, ts := range prog {
+func c16WantsDecorations(spec C16Spec) bool {
+	if len(spec.Formats) == 0 {
+		return true
+	}
+	for _, f := range spec.Formats {
+		if f == "texttable" || f == "auto" {
+			return true
+		}
+	}
+	return false
+}
+
+func c16RunProgramme(spec C16Spec, g int, prog []c16Tab, names, formats []string) (out, labels []string) {
+	if c16WantsDecorations(spec) {
+		out, labels = c16Prologue(names)
+	}
+	for k, ct := range prog {
 		t := tabular.New()
-		ts.Build(t)
-		for _, f := range c16Pick(spec, formats, g, k) {
+		ct.Build(t)
+		if ct.SepAdd {
+			t.AddSeparator()
+			rows := t.AllRows()
+			rows[len(rows)-1].Add(tabular.NewCell("stray"))
+		}
+		if ct.FailCB {
+			t.RegisterPropertyCallback(t, tabular.CB_AT_RENDER_POSTCELL, tabular.CB_ON_ITSELF, &c16FailCB{tag: ct.Tag})
+		}
+		for i, f := range c16Pick(spec, formats, g, k) {
 			out = append(out, c16Render(t, f))
 			labels = append(labels, fmt.Sprintf("table %d format %s", k, f))
+			if i == 0 {
+				out = append(out, c16Errors(t))
+				labels = append(labels, fmt.Sprintf("table %d errors held after the first render", k))
+			}
+			if ct.FailW > 0 && i%3 == 1 {
+				out = append(out, c16FailRender(t, i/3+k, (ct.FailW-1)*17))
+				labels = append(labels, fmt.Sprintf("table %d RenderTo a failing destination (#%d)", k, i/3))
+			}
 		}
+		out = append(out, c16Errors(t))
+		labels = append(labels, fmt.Sprintf("table %d errors held at the end", k))
 	}
 	return out, labels
 }
@@ -331,42 +534,77 @@ func clip(s string, n int) string {
 // ---------------------------------------------------------------- the child process
 
 func c16Worker() {
-	var spec C16Spec
-	if err := json.NewDecoder(os.Stdin).Decode(&spec); err != nil {
-		fmt.Fprintln(os.Stderr, "C16worker: bad spec:", err)
+	var in c16WorkerIn
+	if err := json.NewDecoder(os.Stdin).Decode(&in); err != nil {
+		fmt.Fprintln(os.Stderr, "C16worker: bad input:", err)
 		os.Exit(3)
 	}
-	names := decoration.RegisteredDecorationNames()
-	styles := auto.ListStyles()
-	decors := make([]decoration.Decoration, len(names))
-	for i, n := range names {
-		decors[i] = decoration.Named(n)
+	spec := in.Spec
+	// In a cold case nothing of the library runs before the goroutines do: the
+	// built-in names are constants here, not read from the registry.
+	var names, styles []string
+	if spec.ColdFirst {
+		names, styles = c16Builtin, c16BuiltinStyles()
+	} else {
+		names, styles = decoration.RegisteredDecorationNames(), auto.ListStyles()
 	}
 	formats := c16Formats(spec, names, styles)
-	res := C16Result{Formats: formats, Outcomes: map[string]int{}, Procs: runtime.GOMAXPROCS(0)}
 
-	progs := make([][]TableSpec, spec.G)
+	if in.Mode == "solo" {
+		// one goroutine's programme, alone in this process
+		outs, labels := c16RunProgramme(spec, in.Solo, c16Programme(spec, in.Solo), names, formats)
+		os.Stdout.Write(mustJSON(c16SoloOut{Outs: outs, Labels: labels}))
+		return
+	}
+
+	res := C16Result{Formats: formats, Outcomes: map[string]int{}, Procs: runtime.GOMAXPROCS(0), Reference: "same-process"}
+	progs := make([][]c16Tab, spec.G)
 	for g := 0; g < spec.G; g++ {
 		progs[g] = c16Programme(spec, g)
+		for _, ct := range progs[g] {
+			if ct.SepAdd || ct.FailCB {
+				res.ErrTables++
+			}
+		}
+	}
+	pristine := len(in.Ref) == spec.G
+	if pristine {
+		res.Reference = "own-process-per-goroutine"
 	}
 	seq1 := make([][]string, spec.G)
 	labels := make([][]string, spec.G)
 	res.Rows = make([]c16Row, spec.G)
 	rendered := map[string]bool{}
-	// solo runs, twice
+	// solo runs in this process: twice; with a reference from processes of
+	// their own, once, and seq1 is that reference
 	soloPhase := func() {
 		for g := 0; g < spec.G; g++ {
-			seq1[g], labels[g] = c16RunProgramme(spec, g, progs[g], formats)
-			seq2, _ := c16RunProgramme(spec, g, progs[g], formats)
+			var seq2 []string
+			if pristine {
+				seq1[g] = in.Ref[g]
+				seq2, labels[g] = c16RunProgramme(spec, g, progs[g], names, formats)
+			} else {
+				seq1[g], labels[g] = c16RunProgramme(spec, g, progs[g], names, formats)
+				seq2, _ = c16RunProgramme(spec, g, progs[g], names, formats)
+			}
 			res.Rows[g].Seq1 = c16Digest(seq1[g], spec.Iters)
 			res.Rows[g].Seq2 = c16Digest(seq2, spec.Iters)
-			res.Renders += len(seq1[g]) * spec.Iters
-			for i := range seq1[g] {
-				res.Outcomes[seq1[g][i][:strings.IndexByte(seq1[g][i], 0)]]++
-				rendered[labels[g][i][strings.Index(labels[g][i], "format ")+7:]] = true
-				if seq1[g][i] != at(seq2, i) && len(res.SeqDiffer) < 5 {
-					res.SeqDiffer = append(res.SeqDiffer, fmt.Sprintf("goroutine %d %s: first %q second %q",
-						g, labels[g][i], clip(seq1[g][i], 300), clip(at(seq2, i), 300)))
+			res.Renders += len(seq2) * spec.Iters
+			if len(seq1[g]) != len(seq2) && len(res.SeqDiffer) < 5 {
+				res.SeqDiffer = append(res.SeqDiffer, fmt.Sprintf("goroutine %d: %d outputs in the reference, %d in this process", g, len(seq1[g]), len(seq2)))
+			}
+			for i := range seq2 {
+				if j := strings.IndexByte(seq2[i], 0); j >= 0 {
+					if k := seq2[i][:j]; k == "ok" || k == "err" || k == "panic" {
+						res.Outcomes[k]++
+					}
+				}
+				if j := strings.Index(labels[g][i], "format "); j >= 0 {
+					rendered[labels[g][i][j+7:]] = true
+				}
+				if at(seq1[g], i) != seq2[i] && len(res.SeqDiffer) < 5 {
+					res.SeqDiffer = append(res.SeqDiffer, fmt.Sprintf("goroutine %d %s: first (%s) %q second (this process) %q",
+						g, labels[g][i], res.Reference, clip(at(seq1[g], i), 300), clip(seq2[i], 300)))
 				}
 			}
 		}
@@ -384,7 +622,7 @@ func c16Worker() {
 			defer wg.Done()
 			<-start
 			for it := 0; it < spec.Iters; it++ {
-				outs, _ := c16RunProgramme(spec, g, progs[g], formats)
+				outs, _ := c16RunProgramme(spec, g, progs[g], names, formats)
 				conc[g] = append(conc[g], outs)
 			}
 		}(g)
@@ -393,12 +631,16 @@ func c16Worker() {
 		for g := 0; g < spec.G; g++ {
 			var all []string
 			for it, outs := range conc[g] {
-				for i := range seq1[g] {
-					if at(outs, i) != seq1[g][i] {
+				n := len(seq1[g])
+				if len(outs) > n {
+					n = len(outs)
+				}
+				for i := 0; i < n; i++ {
+					if at(outs, i) != at(seq1[g], i) {
 						res.NMismatch++
 						if len(res.Mismatches) < 6 {
-							res.Mismatches = append(res.Mismatches, fmt.Sprintf("goroutine %d iteration %d %s: alone %q concurrently %q",
-								g, it, labels[g][i], clip(seq1[g][i], 400), clip(at(outs, i), 400)))
+							res.Mismatches = append(res.Mismatches, fmt.Sprintf("goroutine %d iteration %d %s: alone (%s) %q concurrently %q",
+								g, it, at(labels[g], i), res.Reference, clip(at(seq1[g], i), 400), clip(at(outs, i), 400)))
 						}
 					}
 				}
@@ -414,29 +656,64 @@ func c16Worker() {
 	if !spec.ColdFirst {
 		soloPhase()
 	}
+	// Registry readers.  Warm: they compare with what this process read before
+	// the goroutines started.  Cold: nothing was read before; every reader's own
+	// first answers are kept and checked, after the join, against what the
+	// registry says then (nothing is registered meanwhile, so all must agree).
+	var warmDecors []decoration.Decoration
+	if !spec.ColdFirst {
+		warmDecors = make([]decoration.Decoration, len(names))
+		for i, n := range names {
+			warmDecors[i] = decoration.Named(n)
+		}
+	}
+	type firstSeen struct {
+		listing string
+		styles  string
+		decors  []decoration.Decoration
+	}
+	firsts := make([]firstSeen, spec.Readers)
 	for k := 0; k < spec.Readers; k++ {
 		rwg.Add(1)
 		go func(k int) {
 			defer rwg.Done()
 			<-start
+			expectL, expectS, expectD := strings.Join(names, "\x00"), strings.Join(styles, "\x00"), warmDecors
 			for n := 0; atomic.LoadInt32(&done) == 0 || n < 3; n++ {
 				bad := int64(0)
-				l := decoration.RegisteredDecorationNames()
-				if strings.Join(l, "\x00") != strings.Join(names, "\x00") {
+				var ds []decoration.Decoration
+				if k%2 == 0 { // half of the readers start with the lookups, half with the listing
+					for _, nm := range names {
+						ds = append(ds, decoration.Named(nm))
+					}
+				}
+				l := strings.Join(decoration.RegisteredDecorationNames(), "\x00")
+				if k%2 == 1 {
+					for _, nm := range names {
+						ds = append(ds, decoration.Named(nm))
+					}
+				}
+				st := ""
+				if k%2 == 1 {
+					st = strings.Join(auto.ListStyles(), "\x00")
+				}
+				if spec.ColdFirst && n == 0 {
+					firsts[k] = firstSeen{l, st, ds}
+					expectL, expectS, expectD = l, st, ds
+				}
+				if l != expectL {
 					bad++
 				}
-				for i, nm := range names {
-					if decoration.Named(nm) != decors[i] {
+				for i := range ds {
+					if ds[i] != expectD[i] {
 						bad++
 					}
 				}
 				if decoration.Named("no-such-decoration") != decoration.EmptyDecoration {
 					bad++
 				}
-				if k%2 == 1 {
-					if strings.Join(auto.ListStyles(), "\x00") != strings.Join(styles, "\x00") {
-						bad++
-					}
+				if k%2 == 1 && st != expectS {
+					bad++
 				}
 				atomic.AddInt64(&res.RegReads, int64(len(names)+2))
 				atomic.AddInt64(&res.RegMismatch, bad)
@@ -450,11 +727,24 @@ func c16Worker() {
 	rwg.Wait()
 	if spec.ColdFirst {
 		soloPhase()
-	}
-	compare()
-	if strings.Join(decoration.RegisteredDecorationNames(), "\x00") != strings.Join(names, "\x00") {
+		finalL, finalS := strings.Join(decoration.RegisteredDecorationNames(), "\x00"), strings.Join(auto.ListStyles(), "\x00")
+		for k, f := range firsts {
+			if f.listing != finalL || (k%2 == 1 && f.styles != finalS) {
+				res.RegMismatch++
+			}
+			for i, nm := range names {
+				if i < len(f.decors) && f.decors[i] != decoration.Named(nm) {
+					res.RegMismatch++
+				}
+			}
+		}
+		if finalL != strings.Join(names, "\x00") {
+			res.Notes = append(res.Notes, fmt.Sprintf("the registry lists %q, the cold cases use the documented built-in names %q", strings.Split(finalL, "\x00"), names))
+		}
+	} else if strings.Join(decoration.RegisteredDecorationNames(), "\x00") != strings.Join(names, "\x00") {
 		res.RegMismatch++
 	}
+	compare()
 	os.Stdout.Write(mustJSON(res))
 }
 
@@ -491,7 +781,8 @@ type c16Obs struct {
 	RaceDetect bool        `json:"race_detector"`
 }
 
-func c16Child(spec C16Spec) (obs c16Obs) {
+// c16Exec runs this binary once more as a worker process.
+func c16Exec(in c16WorkerIn, procs int) (stdout []byte, stderr string, exit int) {
 	ctx, cancel := context.WithTimeout(context.Background(), 10*time.Minute)
 	defer cancel()
 	cmd := exec.CommandContext(ctx, os.Args[0], "C16worker")
@@ -501,26 +792,66 @@ func c16Child(spec C16Spec) (obs c16Obs) {
 			env = append(env, e)
 		}
 	}
-	env = append(env, "GORACE=halt_on_error=0 exitcode=66 atexit_sleep_ms=0", fmt.Sprintf("GOMAXPROCS=%d", spec.Procs))
+	env = append(env, "GORACE=halt_on_error=0 exitcode=66 atexit_sleep_ms=0", fmt.Sprintf("GOMAXPROCS=%d", procs))
 	cmd.Env = env
-	cmd.Stdin = bytes.NewReader(mustJSON(spec))
+	cmd.Stdin = bytes.NewReader(mustJSON(in))
 	var so, se bytes.Buffer
 	cmd.Stdout, cmd.Stderr = &so, &se
-	err := cmd.Run()
-	if err != nil {
+	if err := cmd.Run(); err != nil {
 		if ee, ok := err.(*exec.ExitError); ok {
-			obs.ExitCode = ee.ExitCode()
+			exit = ee.ExitCode()
 		} else {
 			panic(fmt.Sprintf("C16: cannot run the worker process: %v", err))
 		}
 	}
-	if obs.ExitCode == 3 {
-		panic("C16: worker rejected its spec: " + se.String())
+	if exit == 3 {
+		panic("C16: worker rejected its input: " + se.String())
 	}
-	stderr := se.String()
+	return so.Bytes(), se.String(), exit
+}
+
+// c16PristineRefs: every goroutine's programme in a fresh process of its own
+// (a few at a time).  A programme that cannot even run alone is not a finding
+// of this property: the harness stops (exit 2).
+func c16PristineRefs(spec C16Spec) [][]string {
+	refs := make([][]string, spec.G)
+	fails := make([]string, spec.G)
+	var wg sync.WaitGroup
+	sem := make(chan struct{}, 8)
+	for g := 0; g < spec.G; g++ {
+		wg.Add(1)
+		go func(g int) {
+			defer wg.Done()
+			sem <- struct{}{}
+			defer func() { <-sem }()
+			so, se, exit := c16Exec(c16WorkerIn{Spec: spec, Mode: "solo", Solo: g}, 2)
+			var out c16SoloOut
+			if exit != 0 || json.Unmarshal(so, &out) != nil || len(out.Outs) == 0 {
+				fails[g] = fmt.Sprintf("goroutine %d's programme alone: exit %d: %s", g, exit, clip(se, 1500))
+				return
+			}
+			refs[g] = out.Outs
+		}(g)
+	}
+	wg.Wait()
+	for _, f := range fails {
+		if f != "" {
+			panic("C16: solo reference process failed: " + f)
+		}
+	}
+	return refs
+}
+
+func c16Child(spec C16Spec) (obs c16Obs) {
+	in := c16WorkerIn{Spec: spec, Mode: "run"}
+	if spec.Pristine {
+		in.Ref = c16PristineRefs(spec)
+	}
+	so, stderr, exit := c16Exec(in, spec.Procs)
+	obs.ExitCode = exit
 	obs.Race = strings.Contains(stderr, "WARNING: DATA RACE") || obs.ExitCode == 66
 	var res C16Result
-	if json.Unmarshal(so.Bytes(), &res) == nil && len(res.Rows) > 0 {
+	if json.Unmarshal(so, &res) == nil && len(res.Rows) > 0 {
 		obs.Result = &res
 	}
 	obs.Crashed = obs.Result == nil || (obs.ExitCode != 0 && obs.ExitCode != 66)
@@ -587,13 +918,17 @@ func c16RunCase(spec C16Spec) CaseOut {
 	}
 	tags := append([]string{"kind=run", fmt.Sprintf("goroutines=%d", spec.G), fmt.Sprintf("gomaxprocs=%d", spec.Procs),
 		fmt.Sprintf("readers=%d", spec.Readers), fmt.Sprintf("tables-per-goroutine=%d", spec.Tables), "formats=" + fclass,
-		fmt.Sprintf("every-table-in-every-format=%v", spec.Full), fmt.Sprintf("race=%v", obs.Race), fmt.Sprintf("race-detector=%v", obs.RaceDetect)}, outcomeTags...)
+		fmt.Sprintf("every-table-in-every-format=%v", spec.Full), fmt.Sprintf("cold-start=%v", spec.ColdFirst), fmt.Sprintf("reference-in-own-process=%v", spec.Pristine),
+		fmt.Sprintf("race=%v", obs.Race), fmt.Sprintf("race-detector=%v", obs.RaceDetect)}, outcomeTags...)
+	if obs.Result != nil && obs.Result.ErrTables > 0 {
+		tags = append(tags, "tables-recording-errors")
+	}
 	return CaseOut{
 		Coq:        term,
 		Desc:       obs,
 		Size:       spec.G*spec.Tables*spec.Iters*(1+spec.MaxRows*spec.MaxCells) + spec.Readers,
 		Tags:       tags,
-		Key:        fmt.Sprintf("%d/%d/%d/%d/%d/%d/%s/%s", spec.Seed, spec.G, spec.Procs, spec.Tables, spec.Iters, spec.Readers, fclass, obs.Sig),
+		Key:        fmt.Sprintf("%d/%d/%d/%d/%d/%d/%s/%v/%v/%s", spec.Seed, spec.G, spec.Procs, spec.Tables, spec.Iters, spec.Readers, fclass, spec.ColdFirst, spec.Pristine, obs.Sig),
 		Nontrivial: spec.G >= 2 && renders > 0,
 	}
 }
@@ -713,7 +1048,8 @@ func init() {
 		Rule: "one case is the shared-state inventory of the repository's source (every package-level var of every non-test package and every post-init write, address-of, append destination or pointer-receiver call on one; accesses to the fields of mutex-carrying variables - registry.table - with their lock status: lexically between Lock and Unlock of the variable's own mutex, exclusive lock for mutations, or in an unexported helper all of whose call sites are so locked), judged by shared_ok; " +
 			"assumed of the standard library: sync and sync/atomic types synchronise, and the methods of *strings.Replacer and of *regexp.Regexp (except Longest) are safe for concurrent use as documented, so calls of them on package-level variables are not counted as mutation; " +
 			"every other case is one child process under the race detector: 8-64 goroutines that each build their own tables (1-6 columns, 0-6 rows, separators, multi-line / markup / non-ASCII / non-string items, alignment and skipable column properties, built by AddRowItems, NewRow+AddRow, NewRowSizedFor) and render each in csv, json, markdown, html (plain; Id/Class/Caption/TemplateName/row-class generator, rendered twice through the wrapper's cached template), texttable (default decoration, an unknown name, RenderTo) plus the registered decorations by name / by value and auto.Render for the listed styles - all of them for every table in the cases tagged every-table-in-every-format=true, otherwise a third / a quarter per table rotating with (goroutine, table) so that every run still renders every decoration and style concurrently - " +
-			"while 1-8 reader goroutines call RegisteredDecorationNames / Named / auto.ListStyles; the same programmes run alone twice before the goroutines start; goroutine count, GOMAXPROCS (1..16), tables, iterations vary by seed. " +
+			"while 1-8 reader goroutines call RegisteredDecorationNames / Named / auto.ListStyles. Every goroutine's first actions after the start barrier are the same lookups of the six built-in decoration names and renders of a tiny table in each. Cells draw on a small pool of short texts shared by all goroutines, as plain strings and as single-line items declaring a wider display width; some cells hold +Inf/-Inf (encoding/json refuses them part-way down the table); a quarter of the tables record errors (a cell added to a separator row; a render-time callback failing three times) and what t.Errors() and every row's Errors() hold - count, order, and for the harness's own errors their per-table tag - is compared after the first render and at the end; a third of the tables are, between renders, rendered into destinations that fail after 0-51 bytes. " +
+			"Reference ('rendered alone'): the same programmes run alone in the same process, twice (before the goroutines in warm cases; in cold cases - half - after them, and then the process does not touch the library or the registry before the goroutines do: built-in names are constants, readers check their own first answers against the registry afterwards); in a third of the cases (8-12 goroutines) each goroutine's reference is instead computed in a pristine child process of its own and the same-process solo run is the correspondence side. Goroutine count, GOMAXPROCS (1..16), tables, iterations vary by seed. " +
 			"A case is non-trivial when at least two goroutines rendered concurrently; distinct = distinct (seed, goroutines, GOMAXPROCS, tables, iterations, readers, formats, outcome)",
 		Exhaustive: "",
 		Gen: func(r *RNG, tier string) []json.RawMessage {
@@ -724,10 +1060,17 @@ func init() {
 			if tier == "thorough" {
 				n = 60
 			}
-			gs := []int{8, 16, 32, 64, 12, 24, 48}
+			gs := []int{16, 32, 64, 24, 48}
+			small := []int{8, 12, 10, 9}
 			procs := []int{1, 2, 4, 8, 16, 3}
 			for i := 0; i < n; i++ {
 				g := gs[i%len(gs)]
+				// a third of the cases: few goroutines, and the reference for each is
+				// computed in a pristine process of its own
+				pristine := i%3 == 0
+				if pristine {
+					g = small[(i/3)%len(small)]
+				}
 				s := C16Spec{Kind: "run", Seed: r.U64() % 1000000007, G: g, Readers: 1 + r.Intn(8), Procs: procs[(i/2+r.Intn(2))%len(procs)],
 					Tables: 1 + r.Intn(3), Iters: 1 + r.Intn(3), MaxRows: 1 + r.Intn(6), MaxCells: 1 + r.Intn(6)}
 				budget := 200
@@ -745,6 +1088,7 @@ func init() {
 					}
 				}
 				s.ColdFirst = i%2 == 1
+				s.Pristine = pristine
 				out = append(out, mustJSON(s))
 			}
 			// the inventory case comes last: it has been running in the background meanwhile
